@@ -12,17 +12,14 @@ sys.path.insert(0, os.path.join(facts.VERIF, "witness"))
 import specs as S  # noqa: E402
 
 
-def build(ck, seed, count):
-    """-> (FactSet-like dict, list of specs)"""
-    import ctx
-    all_specs = list(S.STATIC) + S.generate(seed, count)
-    src = "#![allow(async_fn_in_trait)]\n" + "\n".join(S.render(s) for s in all_specs) + "\n"
+def _write_ws(src):
     h = hashlib.sha256(src.encode()).hexdigest()[:16]
     d = os.path.join(facts.CACHE, "wit", "ws-%s-%s" % (facts.tree_key(), h))
     if not os.path.exists(os.path.join(d, "wit", "src", "lib.rs")):
         root = os.path.join(facts.CACHE, "wit")
         if os.path.isdir(root):
-            for e in os.listdir(root):
+            ents = sorted(os.listdir(root), key=lambda e: os.path.getmtime(os.path.join(root, e)))
+            for e in ents[:-4]:
                 shutil.rmtree(os.path.join(root, e), ignore_errors=True)
         os.makedirs(os.path.join(d, "wit", "src"))
         with open(os.path.join(d, "wit", "Cargo.toml"), "w") as f:
@@ -31,8 +28,49 @@ def build(ck, seed, count):
         shutil.copy(os.path.join(facts.REPO, "Cargo.lock"), os.path.join(d, "wit", "Cargo.lock"))
         with open(os.path.join(d, "wit", "src", "lib.rs"), "w") as f:
             f.write(src)
-    fs = ctx.factset(ck, "wit-%d-%d" % (seed, count), custom=(os.path.join(d, "wit"), ["--lib"], "wit", "wit" + h))
-    return fs, all_specs
+    return d, h
+
+
+def build(ck, seed, count, extra_specs=None):
+    """-> (FactSet, specs that compiled, failures [(spec, message)])
+
+    All interfaces are compiled in one crate; when the build fails the interfaces whose macro
+    invocation (or generated code) is reported by rustc are removed and the rest is built again,
+    so that one rejected interface is reported as such and does not hide the others."""
+    import ctx
+    import re
+    all_specs = list(S.STATIC) + S.generate(seed, count) + list(extra_specs or [])
+    failures = []
+    for attempt in range(4):
+        rendered = [S.render(s) for s in all_specs]
+        header = "#![allow(async_fn_in_trait)]\n"
+        src = header + "\n".join(rendered) + "\n"
+        d, h = _write_ws(src)
+        fs = ctx.factset(ck, "wit-%d-%d-%s" % (seed, count, h), custom=(os.path.join(d, "wit"), ["--lib"], "wit", "wit" + h))
+        if fs.rc == 0:
+            break
+        # map error lines to modules
+        starts = []
+        line = 2
+        for sp, r in zip(all_specs, rendered):
+            starts.append((line, line + r.count("\n"), sp))
+            line += r.count("\n") + 1
+        bad = {}
+        log = re.sub(r"\x1b\[[0-9;]*m", "", fs.log)
+        blocks = re.split(r"\n(?=error)", log)
+        for blk in blocks:
+            m = re.search(r"--> src/lib\.rs:(\d+):", blk)
+            if not blk.startswith("error") or not m:
+                continue
+            ln = int(m.group(1))
+            for (a, b, sp) in starts:
+                if a <= ln <= b:
+                    bad.setdefault(sp["mod"], (sp, blk.strip()[:700]))
+        if not bad:
+            return fs, [], [(None, log[-2000:])]
+        failures += list(bad.values())
+        all_specs = [sp for sp in all_specs if sp["mod"] not in bad]
+    return fs, all_specs, failures
 
 
 class Iface:
@@ -181,3 +219,38 @@ class Arms:
                     and c[1][3][0] == "lit":
                 return c[1][1], c[1][3][2], c[2]
         return None
+
+
+def compile_cases(ck, specs, tag="cf"):
+    """Compile a crate of case modules once (no facts); -> (rc, {mod: [error blocks]}, unattributed error blocks)"""
+    import ctx
+    import re
+    rendered = [S.render(s) for s in specs]
+    src = "#![allow(async_fn_in_trait)]\n" + "\n".join(rendered) + "\n"
+    d, h = _write_ws(src)
+    fs = ctx.factset(ck, "%s-%s" % (tag, h), custom=(os.path.join(d, "wit"), ["--lib"], "__none__", tag + h))
+    starts = []
+    line = 2
+    for sp, r in zip(specs, rendered):
+        starts.append((line, line + r.count("\n"), sp["mod"]))
+        line += r.count("\n") + 1
+    per = {sp["mod"]: [] for sp in specs}
+    other = []
+    log = re.sub(r"\x1b\[[0-9;]*m", "", fs.log)
+    for blk in re.split(r"\n(?=error)", log):
+        if not blk.startswith("error"):
+            continue
+        if blk.startswith("error: could not compile") or blk.startswith("error: aborting"):
+            continue
+        m = re.search(r"--> src/lib\.rs:(\d+):", blk)
+        hit = None
+        if m:
+            ln = int(m.group(1))
+            for (a, b, mod) in starts:
+                if a <= ln <= b:
+                    hit = mod
+        if hit:
+            per[hit].append(blk.strip())
+        else:
+            other.append(blk.strip())
+    return fs.rc, per, other
